@@ -14,6 +14,7 @@ fn main() {
         "codec" => shpverif::cmd_codec::run(&a),
         "writer" => shpverif::cmd_writer::run(&a),
         "reader" => shpverif::cmd_reader::run(&a),
+        "damage" => shpverif::cmd_damage::run(&a),
         c => {
             eprintln!("unknown command {}", c);
             std::process::exit(2);
